@@ -751,7 +751,9 @@ def split_records(fn, resolver):
                 unpack_uses.append(p)
             else:
                 other += 1
-        if (other and not immutable) or (other and rebuild is None) or not (field_uses or unpack_uses):
+        hacked = any(isinstance(c, ast.Call) and ast.unparse(c.func).split(".")[-1] in ("setattr", "__setattr__", "delattr")
+                     and c.args and isinstance(c.args[0], ast.Name) and c.args[0].id == name for c in ast.walk(fn))
+        if (other and not immutable) or (other and rebuild is None) or not (field_uses or unpack_uses) or hacked:
             skip.add(name)
             continue
         k += 1
